@@ -88,7 +88,8 @@ ResOK(exp, got, kind) ==
   \/ /\ exp.t = "err" /\ got.t = "err" /\ got.e \in exp.errs
   \/ /\ exp.t = "ok" /\ got.t = "ok" /\ ToSet(got.rs) = exp.rs /\ Len(got.rs) = Cardinality(exp.rs)
 
-FullSearch == "full-search" \in Relax
+\* reductions that rely on the strict WatchOrdered rule are off when it is relaxed, and in the cross-check mode
+FullSearch == Relax \cap {"full-search", "watch-order", "watch-order-dup", "watch-order-xrestore"} # {}
 NewVer(e) == IF e.op.t = "write" /\ e.res.t = "ok" /\ Len(e.res.rs) = 1 THEN e.res.rs[1].ver ELSE ""
 AbsOp(o) == IF o.t = "restore" THEN [t |-> "restore", rs |-> ToSet(o.rs)] ELSE o
 \* the call MAY change the state in some linearization (a DeleteCAS that returned nil may have been a
@@ -273,7 +274,7 @@ Init == \E h \in Headers :
           /\ pend = {} /\ done = {} /\ ws = <<>> /\ aux = [prod |-> {}, rst |-> {}]
           /\ TLCSet(h, h) /\ TLCSet(N + h, 0)
 
-Step == IF FullSearch
+Step == IF "full-search" \in Relax
         THEN \/ Consume
              \/ (l <= N /\ \E i \in pend : \E T \in SUBSET (IF Mutates(Trace[i]) THEN Cands(i) ELSE {}) : Lin(i, T))
              \/ Finish
